@@ -12,11 +12,38 @@ use jrv::report::*;
 use jrv::rng::Rng;
 use jrv::runner::*;
 use jrv::subctl::{self, Cmd, Registry, Reply, Ret};
-use jsonrpsee_server::ServerConfig;
+use jrv::lowlevel::LowLevel;
+use jsonrpsee_server::{IdProvider, ServerConfig};
+use jsonrpsee_types::SubscriptionId;
 use serde_json::{Value, json};
+use std::sync::Arc;
+use std::sync::atomic::{AtomicU64, Ordering};
 use std::time::Duration;
 
 const TOO_MANY_SUBSCRIPTIONS: i64 = -32006;
+
+/// Predictable subscription ids: 1, 2, 3, ... in the order in which subscribe calls are admitted.
+#[derive(Debug, Clone, Default)]
+struct CounterIds(Arc<AtomicU64>);
+impl IdProvider for CounterIds {
+	fn next_id(&self) -> SubscriptionId<'static> {
+		SubscriptionId::Num(self.0.fetch_add(1, Ordering::SeqCst) + 1)
+	}
+}
+
+/// The server under test: the tower service, or the low-level assembly around `ws::connect`.
+enum Srv {
+	Tower(MemServer),
+	Low(LowLevel),
+}
+impl Srv {
+	async fn ws(&self) -> Result<RawWs, String> {
+		match self {
+			Srv::Tower(s) => s.ws().await.map_err(|e| format!("{e:?}")),
+			Srv::Low(l) => l.ws().await,
+		}
+	}
+}
 
 #[derive(Debug, Clone, PartialEq, Eq, Hash)]
 enum Target {
@@ -25,6 +52,8 @@ enum Target {
 	Foreign(usize),
 	Unknown,
 	Malformed(usize),
+	/// the (predictable) id of subscription `s` while it is still pending, i.e. not yet accepted
+	Pending(usize),
 }
 
 #[derive(Debug, Clone, PartialEq, Eq, Hash)]
@@ -75,6 +104,8 @@ struct SubModel {
 	state: SubState,
 	sub_id: Option<Value>,
 	call_id: u64,
+	/// the id the counter provider hands to this subscription (known as soon as the subscribe is admitted)
+	predicted_id: u64,
 	sinks: Vec<bool>,
 	unsubscribed: bool,
 	/// the handler (or its pending sink) still holds the permit
@@ -100,6 +131,10 @@ struct Spec {
 	cap: u32,
 	conns: usize,
 	ops: Vec<Op>,
+	/// assemble the server with the low-level `ws::connect` API instead of the tower service
+	low_level: bool,
+	/// message_buffer_capacity (deliberately different from the cap)
+	buffer: u32,
 }
 
 #[derive(Default)]
@@ -146,8 +181,15 @@ impl Conn {
 async fn run_spec(spec: &Spec) -> Out {
 	let mut out = Out::default();
 	let reg = Registry::default();
-	let cfg = ServerConfig::builder().max_subscriptions_per_connection(spec.cap).max_connections(100).build();
-	let srv = MemServer::new(cfg, subctl::module(reg.clone()));
+	let ids = CounterIds::default();
+	let cfg = ServerConfig::builder()
+		.max_subscriptions_per_connection(spec.cap)
+		.set_message_buffer_capacity(spec.buffer)
+		.max_connections(100)
+		.set_id_provider(ids.clone())
+		.build();
+	let srv = if spec.low_level { Srv::Low(LowLevel::new(cfg, subctl::module(reg.clone()))) } else { Srv::Tower(MemServer::new(cfg, subctl::module(reg.clone()))) };
+	let mut admitted = 0u64;
 	let mut conns: Vec<Conn> = Vec::new();
 	for _ in 0..spec.conns {
 		match srv.ws().await {
@@ -201,7 +243,8 @@ async fn run_spec(spec: &Spec) -> Out {
 						if must_refuse && !ambiguous {
 							bad!("cap-exceeded/subscribe", "{held} of {} slots held on connection {conn} but another subscription was admitted", spec.cap);
 						}
-						subs.push(SubModel { conn: *conn, tag, raw: *raw, state: SubState::Pending, sub_id: None, call_id: id, sinks: vec![], unsubscribed: false, fn_alive: true });
+						admitted += 1;
+						subs.push(SubModel { conn: *conn, tag, raw: *raw, state: SubState::Pending, sub_id: None, call_id: id, predicted_id: admitted, sinks: vec![], unsubscribed: false, fn_alive: true });
 					}
 					other => bad!("unexpected-subscribe-outcome/subscribe", "response {:?}, handler started {}", other.0, other.1),
 				}
@@ -234,6 +277,9 @@ async fn run_spec(spec: &Spec) -> Out {
 									bad!("accept-response-wrong/accept", "{}: handler got id {sub_id}, peer got {other:?}", m.tag);
 								}
 							}
+						}
+						if sub_id != json!(m.predicted_id) {
+							bad!("harness-id-prediction-off/accept", "{}: predicted id {}, the library handed out {sub_id}", m.tag, m.predicted_id);
 						}
 						let sm = &mut subs[*s];
 						sm.state = SubState::Active;
@@ -378,6 +424,10 @@ async fn run_spec(spec: &Spec) -> Out {
 						Some(m) if m.sub_id.is_some() && m.conn != *conn => (json!([m.sub_id.clone().unwrap()]), Some(false), "foreign-connection".to_string()),
 						_ => continue,
 					},
+					Target::Pending(s) => match subs.get(*s) {
+						Some(m) if m.state == SubState::Pending && m.conn == *conn => (json!([m.predicted_id]), Some(false), "pending-not-yet-accepted".to_string()),
+						_ => continue,
+					},
 					Target::Unknown => (json!([987_654_321u64]), Some(false), "unknown-id".to_string()),
 					Target::Malformed(k) => {
 						let p = [json!([{"a": 1}]), json!([-1]), json!([[1]]), json!([1, 2]), json!({"id": 1}), json!([true]), json!([1.5])];
@@ -385,7 +435,7 @@ async fn run_spec(spec: &Spec) -> Out {
 					}
 				};
 				let raw = match target {
-					Target::Own(s) | Target::Foreign(s) => subs[*s].raw,
+					Target::Own(s) | Target::Foreign(s) | Target::Pending(s) => subs[*s].raw,
 					_ => false,
 				};
 				let id = next_id;
@@ -462,6 +512,195 @@ async fn run_spec(spec: &Spec) -> Out {
 	out
 }
 
+/// Directed family: `accept()` is blocked by back-pressure (tiny transport buffer, message buffer 1, peer not reading)
+/// while the peer unsubscribes the id the pending subscription is going to get. The subscription is not active yet, so
+/// the answer must be false, and after the accept completed the sink must not be closed.
+async fn blocked_accept_case(seed: u64) -> Out {
+	let mut out = Out::default();
+	let mut r = Rng::new(seed);
+	let reg = Registry::default();
+	let ids = CounterIds::default();
+	let cfg = ServerConfig::builder().max_subscriptions_per_connection(4).set_message_buffer_capacity(1).max_connections(10).set_id_provider(ids.clone()).build();
+	let mut srv = MemServer::new(cfg, subctl::module(reg.clone()));
+	srv.duplex_capacity = 256 + r.usize(256);
+	let Ok(mut ws) = srv.ws().await else {
+		out.violations.push(("setup-failed/ws-connect".into(), "blocked-accept scenario".into()));
+		return out;
+	};
+	macro_rules! bad {
+		($sig:expr, $($arg:tt)*) => { out.violations.push(($sig.to_string(), format!($($arg)*))) };
+	}
+	let raw = r.chance(1, 4);
+	ws.set_reading(false);
+	settle().await;
+	// responses that nobody reads fill the transport and the connection's message buffer
+	let filler = "x".repeat(150 + r.usize(100));
+	for i in 0..5 + r.usize(3) {
+		let _ = ws.send_text(&json!({"jsonrpc": "2.0", "id": 100 + i, "method": "ping", "params": [filler]}).to_string()).await;
+	}
+	settle().await;
+	let _ = ws.send_text(&json!({"jsonrpc": "2.0", "id": 1, "method": if raw { "sub_raw" } else { "sub" }, "params": ["b0"]}).to_string()).await;
+	settle().await;
+	let Some(h) = reg.get("b0") else {
+		bad!("refused-with-free-slot/subscribe", "blocked-accept scenario: the subscribe call did not reach its handler");
+		return out;
+	};
+	let accept_rx = h.cmd_nowait(Cmd::Accept);
+	tokio::time::sleep(Duration::from_millis(5)).await;
+	out.history.push("transport full, accept() in flight".into());
+	// unsubscribe the id the pending subscription will get (ids are 1, 2, ...)
+	let _ = ws.send_text(&json!({"jsonrpc": "2.0", "id": 2, "method": if raw { "unsub_raw" } else { "unsub" }, "params": [1]}).to_string()).await;
+	tokio::time::sleep(Duration::from_millis(5)).await;
+	ws.set_reading(true);
+	let frames = ws.drain_until_idle(Duration::from_secs(2)).await;
+	let resp = frames.iter().filter_map(|f| f.json()).find(|v| v["id"] == json!(2));
+	out.ops_checked += 1;
+	match &resp {
+		Some(v) if v["result"] == json!(false) => out.unsub_false += 1,
+		Some(v) => bad!("unsubscribe-result-wrong/pending-accept-in-flight", "unsubscribe of the id of a subscription whose accept() had not completed answered {v}"),
+		None => bad!("unsubscribe-unanswered/any", "blocked-accept scenario"),
+	}
+	let accepted = match accept_rx {
+		Some(rx) => tokio::time::timeout(Duration::from_secs(30), rx).await.ok().and_then(|r| r.ok()).map(|t| t.reply),
+		None => None,
+	};
+	match accepted {
+		Some(Reply::Accepted { sub_id }) => {
+			out.admissions += 1;
+			if sub_id != json!(1) {
+				bad!("harness-id-prediction-off/accept", "expected id 1, got {sub_id}");
+			}
+			match h.cmd(Cmd::IsClosed(0)).await.map(|t| t.reply) {
+				Some(Reply::Closed(false)) => {}
+				other => bad!("is-closed-wrong/reported-closed-while-active/after-early-unsubscribe", "sink.is_closed() right after accept(): {other:?}"),
+			}
+			// now it is active: unsubscribe must answer true exactly once
+			for (k, want) in [(3u64, true), (4u64, false)] {
+				let _ = ws.send_text(&json!({"jsonrpc": "2.0", "id": k, "method": if raw { "unsub_raw" } else { "unsub" }, "params": [1]}).to_string()).await;
+				let fr = ws.drain_until_idle(Duration::from_secs(1)).await;
+				let rp = fr.iter().filter_map(|f| f.json()).find(|v| v["id"] == json!(k));
+				if rp.as_ref().map(|v| v["result"].clone()) != Some(json!(want)) {
+					bad!(format!("unsubscribe-result-wrong/{}", if want { "active" } else { "already-unsubscribed" }), "after the blocked accept completed: {rp:?}, model {want}");
+				}
+			}
+		}
+		other => bad!("accept-failed/connection-open", "blocked-accept scenario: {other:?}"),
+	}
+	let _ = h.cmd_nowait(Cmd::Return(Ret::None));
+	settle().await;
+	out
+}
+
+/// Stress (real threads): many subscriptions on several connections end at the same instant (their handlers return
+/// concurrently on 8 workers); afterwards every id must be inactive (unsubscribe false) and every slot must be free.
+async fn mass_ending_case(seed: u64, per_conn: usize) -> (usize, Vec<(String, String)>) {
+	use jsonrpsee_server::RpcModule;
+	let mut violations = Vec::new();
+	let mut r = Rng::new(seed);
+	let n_conns = 2 + r.usize(3);
+	let (go_tx, go_rx) = tokio::sync::watch::channel(false);
+	let mut m = RpcModule::new(go_rx);
+	m.register_subscription("sub", "notif", "unsub", |_, pending, go, _| async move {
+		let sink = pending.accept().await?;
+		let mut go = (*go).clone();
+		let clone = sink.clone();
+		let _ = go.wait_for(|g| *g).await;
+		drop(clone);
+		drop(sink);
+		Ok(())
+	})
+	.unwrap();
+	let ids = CounterIds::default();
+	let cfg = ServerConfig::builder().max_subscriptions_per_connection(per_conn as u32).max_connections(100).set_id_provider(ids).build();
+	let srv = MemServer::new(cfg, m);
+	let mut conns = Vec::new();
+	for _ in 0..n_conns {
+		match srv.ws().await {
+			Ok(ws) => conns.push(ws),
+			Err(e) => return (0, vec![("setup-failed/ws-connect".into(), format!("{e:?}"))]),
+		}
+	}
+	let mut sub_ids: Vec<Vec<Value>> = vec![Vec::new(); n_conns];
+	for (c, ws) in conns.iter_mut().enumerate() {
+		for k in 0..per_conn {
+			let _ = ws.send_text(&json!({"jsonrpc": "2.0", "id": k, "method": "sub", "params": []}).to_string()).await;
+		}
+		let mut got = 0;
+		while got < per_conn {
+			match ws.recv(Duration::from_secs(20)).await {
+				jrv::memsrv::Recv::Frame(f) => {
+					if let Some(v) = f.json() {
+						if v.get("result").is_some() {
+							sub_ids[c].push(v["result"].clone());
+							got += 1;
+						} else if v.get("error").is_some() {
+							violations.push(("refused-with-free-slot/subscribe".into(), format!("stress: {v}")));
+							got += 1;
+						}
+					}
+				}
+				_ => break,
+			}
+		}
+	}
+	// everything ends at once
+	let _ = go_tx.send(true);
+	tokio::time::sleep(Duration::from_millis(300)).await;
+	let mut checked = 0;
+	for (c, ws) in conns.iter_mut().enumerate() {
+		let ids = sub_ids[c].clone();
+		for (k, id) in ids.iter().enumerate() {
+			let _ = ws.send_text(&json!({"jsonrpc": "2.0", "id": 100_000 + k, "method": "unsub", "params": [id]}).to_string()).await;
+		}
+		let mut got = 0;
+		let mut wrong = 0;
+		while got < ids.len() {
+			match ws.recv(Duration::from_secs(20)).await {
+				jrv::memsrv::Recv::Frame(f) => {
+					if let Some(v) = f.json() {
+						if v["id"].as_u64().is_some_and(|i| i >= 100_000) {
+							got += 1;
+							checked += 1;
+							if v["result"] != json!(false) {
+								wrong += 1;
+							}
+						}
+					}
+				}
+				_ => break,
+			}
+		}
+		if wrong > 0 {
+			violations.push(("unsubscribe-result-wrong/handler-gone/concurrent-endings".into(), format!("connection {c}: {wrong} of {} subscriptions whose handlers had returned were still unsubscribable (true)", ids.len())));
+		}
+		// all slots are free again
+		for k in 0..per_conn {
+			let _ = ws.send_text(&json!({"jsonrpc": "2.0", "id": 200_000 + k, "method": "sub", "params": []}).to_string()).await;
+		}
+		let mut got = 0;
+		let mut refused = 0;
+		while got < per_conn {
+			match ws.recv(Duration::from_secs(20)).await {
+				jrv::memsrv::Recv::Frame(f) => {
+					if let Some(v) = f.json() {
+						if v["id"].as_u64().is_some_and(|i| i >= 200_000) {
+							got += 1;
+							if v.get("error").is_some() {
+								refused += 1;
+							}
+						}
+					}
+				}
+				_ => break,
+			}
+		}
+		if refused > 0 {
+			violations.push(("refused-with-free-slot/subscribe/after-concurrent-endings".into(), format!("connection {c}: {refused} of {per_conn} new subscriptions refused after all previous ones had ended")));
+		}
+	}
+	(checked, violations)
+}
+
 fn gen_ops(r: &mut Rng, len: usize, conns: usize) -> Vec<Op> {
 	let mut ops = Vec::new();
 	let mut n_subs = 0usize;
@@ -481,7 +720,8 @@ fn gen_ops(r: &mut Rng, len: usize, conns: usize) -> Vec<Op> {
 			18 => Op::Return(pick_sub(r, n_subs), r.below(3) as u8),
 			19..=21 => {
 				let target = match r.below(8) {
-					0..=4 => Target::Own(pick_sub(r, n_subs)),
+					0..=3 => Target::Own(pick_sub(r, n_subs)),
+					4 => Target::Pending(pick_sub(r, n_subs)),
 					5 => Target::Foreign(pick_sub(r, n_subs)),
 					6 => Target::Unknown,
 					_ => Target::Malformed(r.usize(7)),
@@ -506,7 +746,10 @@ fn gen_spec(seed: u64) -> Spec {
 	let mut r = Rng::new(seed);
 	let conns = 1 + r.usize(2);
 	let len = 3 + r.usize(if cfg!(miri) { 4 } else { 12 });
-	Spec { seed, cap: r.below(4) as u32, conns, ops: gen_ops(&mut r, len, conns) }
+	let cap = r.below(4) as u32;
+	// the buffer capacity is never equal to the cap, so a mixed-up configuration field shows
+	let buffer = *r.pick(&[8u32, 64, 1024]);
+	Spec { seed, cap, conns, ops: gen_ops(&mut r, len, conns), low_level: r.chance(1, 3), buffer }
 }
 
 /// Exhaustive part: all sequences of length <= n over a reduced alphabet on one connection.
@@ -524,6 +767,7 @@ fn exhaustive_specs(max_len: usize) -> Vec<Spec> {
 		Op::Return(0, 1),
 		Op::Unsubscribe { conn: 0, target: Target::Own(0) },
 		Op::Unsubscribe { conn: 0, target: Target::Own(1) },
+		Op::Unsubscribe { conn: 0, target: Target::Pending(0) },
 	];
 	let mut specs = Vec::new();
 	let mut cur: Vec<Vec<Op>> = vec![vec![]];
@@ -540,7 +784,10 @@ fn exhaustive_specs(max_len: usize) -> Vec<Spec> {
 			// only sequences that start with a subscribe do anything
 			if matches!(ops.first(), Some(Op::Subscribe { .. })) {
 				for cap in [1u32, 2] {
-					specs.push(Spec { seed: 0, cap, conns: 1, ops: ops.clone() });
+					specs.push(Spec { seed: 0, cap, conns: 1, ops: ops.clone(), low_level: false, buffer: 1024 });
+					if ops.len() <= 3 {
+						specs.push(Spec { seed: 0, cap, conns: 1, ops: ops.clone(), low_level: true, buffer: 7 });
+					}
 				}
 			}
 		}
@@ -557,8 +804,11 @@ fn record(spec: &Spec, o: Out, class: &str, ev: &mut Evidence, violations: &mut 
 	ev.count("unsubscribe_true", o.unsub_true as u64);
 	ev.count("unsubscribe_false", o.unsub_false as u64);
 	ev.count(&format!("cases_{class}"), 1);
+	if spec.low_level {
+		ev.count("cases_on_low_level_ws_connect", 1);
+	}
 	if o.admissions > 0 {
-		ev.nontrivial(&(spec.cap, spec.conns, &spec.ops));
+		ev.nontrivial(&(spec.cap, spec.conns, &spec.ops, spec.low_level));
 	}
 	for s in &o.states {
 		ev.class("model_states", s);
@@ -567,7 +817,7 @@ fn record(spec: &Spec, o: Out, class: &str, ev: &mut Evidence, violations: &mut 
 	if o.violations.is_empty() {
 		ev.sample_class(class, json!({"cap": spec.cap, "connections": spec.conns, "ops": spec.ops.iter().map(|o| format!("{o:?}")).collect::<Vec<_>>(), "history": o.history.iter().take(16).collect::<Vec<_>>() }));
 	}
-	let w = json!({"seed": spec.seed, "class": class, "cap": spec.cap, "connections": spec.conns, "ops": spec.ops.iter().map(|o| format!("{o:?}")).collect::<Vec<_>>(), "history": o.history});
+	let w = json!({"seed": spec.seed, "class": class, "cap": spec.cap, "low_level_ws_connect": spec.low_level, "buffer": spec.buffer, "connections": spec.conns, "ops": spec.ops.iter().map(|o| format!("{o:?}")).collect::<Vec<_>>(), "history": o.history});
 	for (sig, d) in o.violations {
 		violations.push(Violation::new(sig, d, w.clone()));
 	}
@@ -583,7 +833,7 @@ fn with_drops(spec: &Spec) -> Vec<Spec> {
 			// after the drop, probe every subscription's sinks and try to subscribe on the other connection
 			ops.push(Op::IsClosed(0, 0));
 			ops.push(Op::IsClosed(1, 0));
-			v.push(Spec { seed: spec.seed, cap: spec.cap, conns: spec.conns, ops });
+			v.push(Spec { seed: spec.seed, cap: spec.cap, conns: spec.conns, ops, low_level: spec.low_level, buffer: spec.buffer });
 		}
 	}
 	v
@@ -627,6 +877,22 @@ fn main() {
 		println!("SUBRESULT {}", json!({"cases": n, "violation_signatures": problems}));
 		return;
 	}
+	if ctx.sub.as_deref() == Some("stress") || ctx.sub.as_deref() == Some("tsan") {
+		let n: u64 = ctx.arg_value("--n").and_then(|s| s.parse().ok()).unwrap_or(4);
+		let per: usize = ctx.arg_value("--per").and_then(|s| s.parse().ok()).unwrap_or(400);
+		let seed = ctx.seed;
+		let res = block_on_stress(8, async move {
+			let mut all = Vec::new();
+			for i in 0..n {
+				all.push(mass_ending_case(Rng::fork(seed, 777_000 + i).next_u64(), per).await);
+			}
+			all
+		});
+		let checked: usize = res.iter().map(|r| r.0).sum();
+		let sigs: Vec<String> = res.iter().flat_map(|r| r.1.iter().map(|v| format!("{} ({})", v.0, v.1))).collect();
+		println!("SUBRESULT {}", json!({"mode": ctx.sub, "rounds": n, "unsubscribes_checked": checked, "violation_signatures": sigs}));
+		return;
+	}
 	install_panic_capture(true);
 	let _wd = watchdog("C06", Duration::from_secs(ctx.tier.pick(900, 7200)));
 	let mut ev = Evidence::new(
@@ -635,7 +901,7 @@ fn main() {
 		 clone a sink, drop one of the held sinks, is_closed(), handler return (None / error notification / notification), \
 		 unsubscribe with own / foreign-connection / unknown / malformed id, connection drop, ping}; caps 0..3, 1..2 connections; \
 		 seeded sequences of 3..14 operations, each additionally with a connection drop inserted after EVERY step (fault \
-		 enumeration), plus all sequences up to length 4 (quick) / 5 (thorough) over a 12-operation alphabet for caps 1 and 2. \
+		 enumeration), plus all sequences up to length 4 (quick) / 5 (thorough) over a 13-operation alphabet for caps 1 and 2. \
 		 Every result is compared with an exact model of the subscriber table and the permits. Non-trivial = at least one \
 		 subscription was admitted; distinct by (cap, connections, operations).",
 	);
@@ -655,7 +921,7 @@ fn main() {
 		cands.extend(with_drops(&base));
 		cands.extend(exhaustive_specs(5));
 		for s in cands {
-			if json!(s.ops.iter().map(|o| format!("{o:?}")).collect::<Vec<_>>()) == want_ops && json!(s.cap) == w["witness"]["cap"] {
+			if json!(s.ops.iter().map(|o| format!("{o:?}")).collect::<Vec<_>>()) == want_ops && json!(s.cap) == w["witness"]["cap"] && json!(s.low_level) == w["witness"]["low_level_ws_connect"] {
 				specs.push((s, "replay"));
 				break;
 			}
@@ -671,6 +937,25 @@ fn main() {
 		}
 		for s in exhaustive_specs(ctx.tier.pick(4, 5)) {
 			specs.push((s, "exhaustive"));
+		}
+	}
+	if !replay {
+		let n = ctx.tier.pick(400u64, 20_000);
+		let seed = ctx.seed;
+		let res = run_parallel((0..n).collect(), |_, i| {
+			let s = Rng::fork(seed, 61_000_000 + i).next_u64();
+			(s, block_on_virtual(blocked_accept_case(s)))
+		});
+		for (s, o) in res {
+			ev.eval();
+			ev.count("cases_blocked_accept", 1);
+			ev.count("operations_checked", o.ops_checked as u64);
+			if o.admissions > 0 {
+				ev.nontrivial(&("blocked-accept", s));
+			}
+			for (sig, d) in o.violations {
+				violations.push(Violation::new(sig, d, json!({"scenario": "accept() blocked by back-pressure while the peer unsubscribes the pending id", "seed": s, "history": o.history})));
+			}
 		}
 	}
 	let results = run_parallel(specs.chunks(64).map(|c| c.to_vec()).collect(), |_, chunk| {
@@ -702,7 +987,44 @@ fn main() {
 		}
 	}
 	let mut inconclusive = None;
+	if !replay {
+		// real threads: concurrent endings (the gated mode D runs everything on one thread)
+		let exe = std::env::current_exe().expect("exe");
+		let (n, per) = ctx.tier.pick(("3", "300"), ("40", "500"));
+		let o = std::process::Command::new(exe).args(["--sub", "stress", "--n", n, "--per", per]).env("VERIF_SEED", ctx.seed.to_string()).output();
+		match o.ok().and_then(|o| String::from_utf8(o.stdout).ok()).and_then(|s| s.lines().find_map(|l| l.strip_prefix("SUBRESULT ").map(|j| j.to_string()))) {
+			Some(j) => {
+				let v: Value = serde_json::from_str(&j).unwrap_or(Value::Null);
+				for s in v["violation_signatures"].as_array().cloned().unwrap_or_default() {
+					let s = s.as_str().unwrap_or("?");
+					violations.push(Violation::new(s.split(' ').next().unwrap_or(s).to_string(), s.to_string(), json!({"sub": "stress"})));
+				}
+				ev.evals(v["rounds"].as_u64().unwrap_or(0));
+				ev.count("stress_unsubscribes_checked", v["unsubscribes_checked"].as_u64().unwrap_or(0));
+				ev.set("stress", v);
+			}
+			None => inconclusive = Some("native stress sub-run did not report".to_string()),
+		}
+	}
 	if ctx.tier == Tier::Thorough && !replay {
+		let (res, reports) = jrv::sanit::run_tsan("c06", &["--n".into(), "6".into(), "--per".into(), "300".into()], Duration::from_secs(1200));
+		for (frame, excerpt) in &reports {
+			violations.push(Violation::new(format!("tsan:{frame}"), "ThreadSanitizer reported a data race", json!({"excerpt": excerpt})));
+		}
+		match res {
+			jrv::sanit::SubOutcome::Clean(v) => {
+				for s in v["violation_signatures"].as_array().cloned().unwrap_or_default() {
+					let s = s.as_str().unwrap_or("?");
+					violations.push(Violation::new(s.split(' ').next().unwrap_or(s).to_string(), s.to_string(), json!({"sub": "tsan"})));
+				}
+				ev.set("tsan", json!({"status": format!("{} race report(s)", reports.len()), "workload": v}));
+			}
+			jrv::sanit::SubOutcome::Report { excerpt, frame } => violations.push(Violation::new(format!("tsan:{frame}"), "report", json!({"excerpt": excerpt}))),
+			jrv::sanit::SubOutcome::Failed(why) => {
+				ev.set("tsan", json!({"status": "inconclusive", "why": why}));
+				inconclusive = Some("TSan sub-run did not complete".into());
+			}
+		}
 		match jrv::sanit::run_miri("c06", &[], Duration::from_secs(1500)) {
 			jrv::sanit::SubOutcome::Clean(v) => {
 				for s in v["violation_signatures"].as_array().cloned().unwrap_or_default() {
